@@ -86,11 +86,19 @@ def main():
     seqs = [["opt.step(1)"], ["opt.step(3)"], ["opt.solve()"], ["opt.step(2, broyden=True)"], ["opt.step(2, take_best=False)", "opt.step(2)"],
             ["opt.step(1)", "opt.solve()"], ["opt.step(4, take_best=False)"],
             ["poke_views(opt)", "opt.step(3)"], ["opt.step(1)", "poke_views(opt)", "opt.step(2, take_best=False)"], ["poke_views(opt)", "opt.solve()"]]
+    # (the first 40 problems all have non-unit weights and a max_step and take plain steps only -- cheap calls that are evaluated whatever the budget: a change
+    #  that makes solve() crawl on weighted problems (wave 10, C10-20: the conversions scaling the solver's own vector in place) otherwise starves the section
+    #  of evaluations before one of them shows the violation, and a starved harness is "checker broken", not a detection)
     for n in range(N):
-        if rac.out_of_time(0.55):
+        first = n < 40
+        if not first and rac.out_of_time(0.55):
             break
-        prob = G.rnd_problem(rac.rng, limits=rac.rng.random() < 0.75, max_step=rac.rng.random() < 0.7, weights=rac.rng.random() < 0.5)
-        calls = rac.rng.choice(seqs)
+        if first:
+            prob = G.rnd_problem(rac.rng, limits=n % 2 == 0, max_step=True, weights=True)
+            calls = [["opt.step(1)"], ["opt.step(3)"], ["opt.step(2, take_best=False)", "opt.step(2)"]][n % 3]
+        else:
+            prob = G.rnd_problem(rac.rng, limits=rac.rng.random() < 0.75, max_step=rac.rng.random() < 0.7, weights=rac.rng.random() < 0.5)
+            calls = rac.rng.choice(seqs)
         try:
             build(prob)
         except Exception:      # noqa  (cannot be built: e.g. a weighted knob starting exactly on its limit)
